@@ -72,6 +72,7 @@ namespace via
       size_t        length_ { 0u };          ///< the length of the header line in bytes
       size_t        ws_count_ { 0u };        ///< the current whitespace count
       Header        state_ { Header::NAME }; ///< the current parsing state
+      bool          fail_ { false };         ///< true if the field line failed validation
 
       /// Parse an individual character.
       /// @param c the current character to be parsed.
@@ -155,6 +156,7 @@ namespace via
         length_ = 0u;
         ws_count_ = 0u;
         state_ = Header::NAME;
+        fail_ = false;
       }
 
       /// swap member variables with another field_line.
@@ -166,6 +168,7 @@ namespace via
         std::swap(length_, other.length_);
         std::swap(ws_count_, other.ws_count_);
         std::swap(state_, other.state_);
+        std::swap(fail_, other.fail_);
       }
 
       /// Parse an individual http header field and extract the field name
@@ -177,10 +180,13 @@ namespace via
       template<typename ForwardIterator>
       bool parse(ForwardIterator& iter, ForwardIterator end)
       {
+        if (fail_)
+          return false;
+
         while ((iter != end) && (Header::VALID != state_))
         {
           char c(static_cast<char>(*iter++));
-          if (!parse_char(c))
+          if ((fail_ = !parse_char(c))) // Note: deliberate assignment
             return false;
           else if (Header::VALID == state_)
           { // determine whether the next line is a continuation header
@@ -208,6 +214,11 @@ namespace via
       /// Calculate the length of the header.
       size_t length() const noexcept
       { return name_.size() + value_.size(); }
+
+      /// Accessor for the fail flag.
+      /// @return the fail flag.
+      bool fail() const noexcept
+      { return fail_; }
     }; // class field_line
 
     /// An unordered_map of strings indexed by strings.
@@ -244,6 +255,7 @@ namespace via
       /// The current field being parsed
       field_line<MAX_LINE_LENGTH, MAX_WHITESPACE_CHARS, STRICT_CRLF> field_ {};
       bool       valid_ { false }; ///< true if the headers are valid
+      bool       fail_ { false };  ///< true if the headers failed validation
       size_t     length_ { 0u };   ///< the length of the message headers
 
     public:
@@ -258,6 +270,7 @@ namespace via
         fields_.clear();
         field_.clear();
         valid_ = false;
+        fail_ = false;
         length_ = 0;
       }
 
@@ -268,6 +281,7 @@ namespace via
         fields_.swap(other.fields_);
         field_.swap(other.field_);
         std::swap(valid_, other.valid_);
+        std::swap(fail_, other.fail_);
         std::swap(length_, other.length_);
       }
 
@@ -279,11 +293,17 @@ namespace via
       template<typename ForwardIterator>
       bool parse(ForwardIterator& iter, ForwardIterator end)
       {
+        if (fail_)
+          return false;
+
         while (iter != end && !is_end_of_line(*iter))
         {
          // field_line field;
           if (!field_.parse(iter, end))
+          {
+            fail_ = field_.fail();
             return false;
+          }
 
           length_ += field_.length();
           add(field_.name(), field_.value());
@@ -291,20 +311,29 @@ namespace via
 
           if ((length_ > MAX_HEADER_LENGTH)
            || (fields_.size() > MAX_HEADER_NUMBER))
+          {
+            fail_ = true;
             return false;
+          }
         }
 
         // Parse the blank line at the end of message_headers and
         // chunk trailers
-        if (iter == end || !is_end_of_line(*iter))
+        if (iter == end)
           return false;
 
         // allow \r\n or just \n
         if ('\r' == *iter)
           ++iter;
 
-        if ((iter == end) || ('\n' != *iter))
-           return false;
+        if (iter == end)
+          return false;
+
+        if ('\n' != *iter)
+        {
+          fail_ = true;
+          return false;
+        }
 
         ++iter;
         valid_ = true;
@@ -404,6 +433,11 @@ namespace via
       /// @return the valid flag.
       bool valid() const noexcept
       { return valid_; }
+
+      /// Accessor for the fail flag.
+      /// @return the fail flag.
+      bool fail() const noexcept
+      { return fail_; }
 
       /// Accessor for the header fields.
       /// @return headers as a map
